@@ -177,6 +177,9 @@ TYPES = {
     "dict[str, int]": ("dict[str, int]", ["{'a': 1}"], ["'{\"a\": 1}'", "{'a': 1}", "[('a', 1)]"]),
     "Union[int, str]": ("typing.Union[int, str]", ["1", "'a'", "'1'"], ["'1'", "1", "'a'", "b'1'"]),
     "Union[str, int]": ("typing.Union[str, int]", ["1", "'a'", "'1'"], ["'1'", "1", "'a'", "b'1'"]),
+    "float | str": ("float | str", ["1.5", "'abc'", "'1.5'"], ["'1.5'", "'abc'", "1", "b'2.5'"]),
+    # (member sets no other union of this pool has: equal-but-reordered unions share routines, K-EQCACHE)
+    "list[float | str]": ("list[float | str]", ["['seven', '7.5']", "['7.5', 'seven']", "[1.5, 'a']"], ["['7.5', 'seven']", "['seven', '7.5']", "'[\"7.5\", \"x\"]'"]),
     "int | None | str": ("int | None | str", ["1", "None", "'x'"], ["'1'", "None", "'x'"]),
     "str | None | int": ("str | None | int", ["1", "None", "'x'"], ["'1'", "None", "'x'"]),
     # unions whose members both accept some non-text inputs: which member takes an input must not depend on
@@ -243,6 +246,12 @@ BROKEN_IN = {
              "{'v': 1, 'kids': [{'v': 2, 'kids': []}, {'v': [], 'kids': []}]}"],
     "list[Node]": ["[{'v': 1, 'kids': [{'v': 'bad', 'kids': []}]}]", "[{'v': 1, 'kids': []}, {'v': 2, 'kids': [{'v': 'x', 'kids': []}]}]"],
     "dict[str, Node]": ["{'r': {'v': 1, 'kids': [{'v': 'bad', 'kids': []}]}}"],
+}
+# unions in which inputs of one class are taken by different members depending on the value: (later member's, earlier member's)
+SPLIT = {
+    "Union[int, str]": ("'a'", "'1'"), "int | None | str": ("'x'", "'1'"), "Literal[1, 2] | float": ("2.5", "1"),
+    "tuple[int, int, int] | tuple[int, int]": ("[1, 2]", "[1, 2, 3]"), "Wide | Narrow": ("{'x': 1}", "{'x': 1, 'y': 2}"),
+    "float | str": ("'abc'", "'1.5'"), "list[float | str]": ("['seven', '7.5']", "['7.5', 'seven']"),
 }
 PARTNERS = [
     {"Union[int, str]", "Union[str, int]"}, {"int | None | str", "str | None | int"}, {"Literal[1, 2]", "Literal[2, 1]"},
@@ -584,6 +593,33 @@ def machine(col, seed, n_examples, steps):
             self.dirty = True
             col.label("op:fail-repair-retry")
             self._call(op, key, x, f"repair({src})")
+
+        @rule(key=st.sampled_from(keys), order=st.permutations(["marshal", "unmarshal", "encode", "build"]), n=st.integers(2, 4), i=st.integers(0, 7))
+        def cold_start_sequence(self, key, order, n, i):
+            """caches cleared, then several operations on ONE type in a drawn order: which routine of a type is built first,
+            and what it saw first, must not matter to the next one"""
+            tl.clear_all()
+            self.used_since_clear = set()
+            self.hist.append(["clear-caches", None, None])
+            self.dirty = True
+            col.label("op:cold-start-sequence")
+            for op in order[:n]:
+                if op == "build":
+                    self._call("build", key, None, None)
+                    continue
+                if key.startswith("'Item'@") and op == "encode":
+                    continue
+                srcs = TYPES[key][1] if op != "unmarshal" else TYPES[key][2] + TYPES[key][1]
+                src = srcs[i % len(srcs)]
+                self._call(op, key, eval(src, pool()), src)  # noqa: S307
+
+        @rule(key=st.sampled_from(sorted(SPLIT)), op=st.sampled_from(["marshal", "encode", "unmarshal"]), flip=st.booleans())
+        def later_member_then_lookalike(self, key, op, flip):
+            """one routine, two inputs of ONE class that belong to different members of the union: the later member's first"""
+            pair = SPLIT[key][::-1] if flip else SPLIT[key]
+            col.label("op:split-union-history")
+            for src in pair:
+                self._call(op, key, eval(src, pool()), src)  # noqa: S307
 
         @rule()
         def clear_caches(self):
